@@ -69,7 +69,7 @@ impl S {
             S::Create(t) => crate::ddl::render_table(TableStatement::Create(t.statement()), d),
             S::Alter(t, opts) => {
                 let mut al = Table::alter();
-                al.table(a(t));
+                al.table(crate::ddl::tref(t));
                 for o in opts {
                     match o {
                         AlterOpt::AddColumn(c, ine) => {
@@ -101,11 +101,11 @@ impl S {
                 }
                 crate::ddl::render_table(TableStatement::Alter(al), d)
             }
-            S::Rename(f, t) => crate::ddl::render_table(TableStatement::Rename(Table::rename().table(a(f), a(t)).to_owned()), d),
+            S::Rename(f, t) => crate::ddl::render_table(TableStatement::Rename(Table::rename().table(crate::ddl::tref(f), a(t)).to_owned()), d),
             S::Drop(ts, ie, opt) => {
                 let mut dr = Table::drop();
                 for t in ts {
-                    dr.table(a(t));
+                    dr.table(crate::ddl::tref(t));
                 }
                 if *ie {
                     dr.if_exists();
@@ -121,18 +121,18 @@ impl S {
                 }
                 crate::ddl::render_table(TableStatement::Drop(dr), d)
             }
-            S::Truncate(t) => crate::ddl::render_table(TableStatement::Truncate(Table::truncate().table(a(t)).to_owned()), d),
+            S::Truncate(t) => crate::ddl::render_table(TableStatement::Truncate(Table::truncate().table(crate::ddl::tref(t)).to_owned()), d),
             S::CreateIndex(ix, t) => crate::ddl::render_schema(&ix.statement(Some(t)), d),
             S::DropIndex(n, t, ie) => {
                 let mut dr = Index::drop();
-                dr.name(n.as_str()).table(a(t));
+                dr.name(n.as_str()).table(crate::ddl::tref(t));
                 if *ie {
                     dr.if_exists();
                 }
                 crate::ddl::render_schema(&dr, d)
             }
             S::FkCreate(fk, t) => crate::ddl::render_schema(&fk.statement(t), d),
-            S::FkDrop(n, t) => crate::ddl::render_schema(ForeignKey::drop().name(n.as_str()).table(a(t)), d),
+            S::FkDrop(n, t) => crate::ddl::render_schema(ForeignKey::drop().name(n.as_str()).table(crate::ddl::tref(t)), d),
             S::TypeCreate(sc, n, labels) => {
                 let mut c = Type::create();
                 match sc {
@@ -238,20 +238,26 @@ impl S {
             S::Create(t) => r.create_table(t),
             S::Alter(t, opts) => r.alter_table(t, opts),
             S::Rename(f, t) => match d {
-                Dialect::Mysql => format!("RENAME TABLE {} TO {}", r.id(f), r.id(t)),
-                _ => format!("ALTER TABLE {} RENAME TO {}", r.id(f), r.id(t)),
+                Dialect::Mysql => format!("RENAME TABLE {} TO {}", r.tid(f), r.id(t)),
+                _ => format!("ALTER TABLE {} RENAME TO {}", r.tid(f), r.id(t)),
             },
-            S::Drop(ts, ie, o) => format!("DROP TABLE {}{}{}", if *ie { "IF EXISTS " } else { "" }, ts.iter().map(|t| r.id(t)).collect::<Vec<_>>().join(", "), opt(o)),
-            S::Truncate(t) => format!("TRUNCATE TABLE {}", r.id(t)),
+            S::Drop(ts, ie, o) => format!("DROP TABLE {}{}{}", if *ie { "IF EXISTS " } else { "" }, ts.iter().map(|t| r.tid(t)).collect::<Vec<_>>().join(", "), opt(o)),
+            S::Truncate(t) => format!("TRUNCATE TABLE {}", r.tid(t)),
             S::CreateIndex(ix, t) => r.create_index(ix, t),
             S::DropIndex(n, t, ie) => match d {
-                Dialect::Mysql => format!("DROP INDEX {} ON {}", r.id(n), r.id(t)),
-                _ => format!("DROP INDEX {}{}", if *ie { "IF EXISTS " } else { "" }, r.id(n)),
+                Dialect::Mysql => format!("DROP INDEX {} ON {}", r.id(n), r.tid(t)),
+                // Postgres: an index lives in its table's schema and is named with it
+                _ => format!(
+                    "DROP INDEX {}{}{}",
+                    if *ie { "IF EXISTS " } else { "" },
+                    t.split_once(crate::ddl::SCHEMA_SEP).map(|(sc, _)| format!("{}.", r.id(sc))).unwrap_or_default(),
+                    r.id(n)
+                ),
             },
-            S::FkCreate(fk, t) => format!("ALTER TABLE {} ADD {}", r.id(t), r.fk_clause(fk)),
+            S::FkCreate(fk, t) => format!("ALTER TABLE {} ADD {}", r.tid(t), r.fk_clause(fk)),
             S::FkDrop(n, t) => match d {
-                Dialect::Mysql => format!("ALTER TABLE {} DROP FOREIGN KEY {}", r.id(t), r.id(n)),
-                _ => format!("ALTER TABLE {} DROP CONSTRAINT {}", r.id(t), r.id(n)),
+                Dialect::Mysql => format!("ALTER TABLE {} DROP FOREIGN KEY {}", r.tid(t), r.id(n)),
+                _ => format!("ALTER TABLE {} DROP CONSTRAINT {}", r.tid(t), r.id(n)),
             },
             S::TypeCreate(sc, n, labels) => format!(
                 "CREATE TYPE {}{} AS ENUM ({})",
@@ -436,12 +442,24 @@ fn odd(rng: &mut Rng, base: &str) -> String {
     }
 }
 
-fn random_fk(rng: &mut Rng, name: &str) -> Fk {
+/// a table name, now and then odd, now and then qualified with a schema
+fn tbn(rng: &mut Rng, base: &str) -> String {
+    let t = odd(rng, base);
+    if rng.chance(1, 5) {
+        format!("{}{}{t}", odd(rng, "sch"), crate::ddl::SCHEMA_SEP)
+    } else {
+        t
+    }
+}
+
+/// `qualify`: the referenced table may carry a schema (MySQL's foreign-key and index renderers refuse
+/// schema-qualified tables with an explicit "Not supported" panic: outside the domain there)
+fn random_fk(rng: &mut Rng, name: &str, qualify: bool) -> Fk {
     let two = rng.chance(1, 4);
     Fk {
         name: Some(name.into()),
         cols: if two { vec!["c0".into(), "c1".into()] } else { vec!["c1".into()] },
-        ref_table: "parent".into(),
+        ref_table: if qualify && rng.chance(1, 6) { format!("sch{}parent", crate::ddl::SCHEMA_SEP) } else { "parent".into() },
         ref_cols: if two { vec!["id".into(), "k".into()] } else { vec!["id".into()] },
         on_delete: if rng.coin() { Some(*rng.pick(&ACTIONS)) } else { None },
         on_update: if rng.coin() { Some(*rng.pick(&ACTIONS)) } else { None },
@@ -487,7 +505,7 @@ fn random_stmt(rng: &mut Rng, d: Dialect) -> S {
                 t.indexes.push(random_index(rng, d, true));
             }
             for i in 0..rng.below(3) {
-                t.fks.push(random_fk(rng, &format!("fk{i}")));
+                t.fks.push(random_fk(rng, &format!("fk{i}"), pg));
             }
             if rng.chance(1, 3) {
                 t.checks.push(("c0".into(), if rng.chance(1, 3) { 100 + rng.range(0, 5) } else { rng.range(0, 5) }));
@@ -529,19 +547,20 @@ fn random_stmt(rng: &mut Rng, d: Dialect) -> S {
                     4 => AlterOpt::DropColumn(format!("c{i}")),
                     _ => {
                         if rng.coin() {
-                            AlterOpt::AddForeignKey(random_fk(rng, &format!("fk{i}")))
+                            AlterOpt::AddForeignKey(random_fk(rng, &format!("fk{i}"), pg))
                         } else {
                             AlterOpt::DropForeignKey(format!("fk{i}"))
                         }
                     }
                 });
             }
-            S::Alter("tb".into(), opts)
+            let has_fk = opts.iter().any(|o| matches!(o, AlterOpt::AddForeignKey(_) | AlterOpt::DropForeignKey(_)));
+            S::Alter(if pg || !has_fk { tbn(rng, "tb") } else { odd(rng, "tb") }, opts)
         }
         5 => match rng.below(3) {
-            0 => S::Rename("tb".into(), "tb2".into()),
-            1 => S::Truncate("tb".into()),
-            _ => S::Drop((0..1 + rng.below(3)).map(|i| format!("t{i}")).collect(), rng.coin(), if rng.coin() { Some(rng.coin()) } else { None }),
+            0 => S::Rename(tbn(rng, "tb"), "tb2".into()),
+            1 => S::Truncate(tbn(rng, "tb")),
+            _ => S::Drop((0..1 + rng.below(3)).map(|i| tbn(rng, &format!("t{i}"))).collect(), rng.coin(), if rng.coin() { Some(rng.coin()) } else { None }),
         },
         6 => S::CreateIndex(
             {
@@ -551,15 +570,15 @@ fn random_stmt(rng: &mut Rng, d: Dialect) -> S {
                 }
                 ix
             },
-            "tb".into(),
+            if pg { tbn(rng, "tb") } else { odd(rng, "tb") },
         ),
-        7 => S::DropIndex(odd(rng, "ix1"), odd(rng, "tb"), pg && rng.coin()),
+        7 => S::DropIndex(odd(rng, "ix1"), if pg { tbn(rng, "tb") } else { odd(rng, "tb") }, pg && rng.coin()),
         8 => {
             if rng.coin() {
                 let name = odd(rng, "fk1");
-                S::FkCreate(random_fk(rng, &name), odd(rng, "tb"))
+                S::FkCreate(random_fk(rng, &name, pg), if pg { tbn(rng, "tb") } else { odd(rng, "tb") })
             } else {
-                S::FkDrop(odd(rng, "fk1"), odd(rng, "tb"))
+                S::FkDrop(odd(rng, "fk1"), if pg { tbn(rng, "tb") } else { odd(rng, "tb") })
             }
         }
         9 | 10 => S::TypeCreate(if rng.chance(1, 4) { Some("sch".into()) } else { None }, "mood".into(), (0..1 + rng.below(3)).map(|i| format!("l{i}'x")).collect()),
